@@ -122,8 +122,22 @@ Inductive case :=
   (* exhaustive small scope (thorough tier): every question of a finite family with the preimage the production
      wire hasher was fed for it (wire name, type, class, CD, scope, observed preimage) *)
 | CaseInj (items : list (bytes * N * N * bool * option scope * bytes))
+  (* the ancestor walks on their own: walkWireSuffixes(w), walkFailureZones(pres) and dnsname.Suffixes(pres) for
+     a wire name and the text the decoder prints for it (None: not a plain uncompressed name); the callback
+     refuses the stop-th zone (0: none).  zones_pres / zones_wire = what the callbacks were handed, in order;
+     sufs = pres[off:] for every offset Suffixes yields *)
+| CaseZones (w : bytes) (pres : option bytes) (stop : N) (zones_pres zones_wire sufs : list bytes)
   (* a history on one real Cache *)
 | CaseHist (pol : policy) (ops : list op).
+
+Fixpoint lbytes_eqb (a b : list bytes) : bool :=
+  match a, b with
+  | [], [] => true
+  | x :: a, y :: b => bytes_eqb x y && lbytes_eqb a b
+  | _, _ => false
+  end.
+Definition take_stop {A} (stop : N) (l : list A) : list A :=
+  if stop =? 0 then l else firstn (N.to_nat stop) l.
 
 (* ---- model run of a history *)
 
@@ -247,6 +261,14 @@ Definition check_case (c : case) : bool :=
   | CaseInj items =>
       forallb (fun it => let '(w, qt, qc, cd, p, pre) := it in
                          obytes_eqb (pre_keywirewithprefix w qt qc cd p) (Some pre)) items
+  | CaseZones w pres stop zp zw sf =>
+      lbytes_eqb (take_stop stop (wire_name_suffixes w)) zw &&
+      match pres with
+      | Some n => obytes_eqb (pres_of_wire w) pres &&
+                  lbytes_eqb (take_stop stop (name_suffixes (canonical n))) zp &&
+                  lbytes_eqb (label_suffixes n) sf
+      | None => true
+      end
   | CaseHist pol ops => run pol 0 (empty_store KB) ops
   end.
 
@@ -468,5 +490,19 @@ Definition spec_case (c : case) : bool :=
                  forallb (fun b => let '(nb, tb, cb, cdb, pb, preb) := b in
                             Bool.eqb (bytes_eqb prea preb)
                                      (obytes_eqb na nb && (ta =? tb) && (ca =? cb) && Bool.eqb cda cdb && oscope_eqb pa pb)) xs) xs
+  | CaseZones w pres stop zp zw sf =>
+      (* both walks visit exactly the name's label-level ancestors — the name, each parent, the root — the wire
+         walk as wire suffixes, the text walk as what the decoder prints for them (lower-cased); Suffixes the
+         same without the root.  Judged on the decoded labels, not through the model's text walk. *)
+      match parse_wire w with
+      | Some ls =>
+          lbytes_eqb (take_stop stop (map encode (tails ls))) zw &&
+          match pres with
+          | Some _ => lbytes_eqb (take_stop stop (map (fun t => fold (present t)) (tails ls))) zp &&
+                      lbytes_eqb (map present (removelast (tails ls))) sf
+          | None => false
+          end
+      | None => true
+      end
   | CaseHist pol ops => spec_run pol (mk_ss [] [] [] []) ops && purge_spec [] ops
   end.
